@@ -26,15 +26,65 @@ type stackOp struct {
 	val    ssa.Value     // push: appended element
 }
 
-func stackOps(fn *ssa.Function, typ, field string) []stackOp {
+// isStackAddr: a is the address of the stack field typ.field — directly, or as the pointer receiver of a method of
+// the stack's own type (type stateStack []State; func (s *stateStack) pop()) that every call site applies to that field.
+func isStackAddr(r *core.Run, a ssa.Value, typ, field string, depth int) bool {
+	if depth > 3 {
+		return false
+	}
+	switch x := a.(type) {
+	case *ssa.FieldAddr:
+		tp, ok := modTypePath(x.X.Type())
+		return ok && tp == typ && fieldName(x.X.Type(), x.Field) == field
+	case *ssa.Parameter:
+		if r == nil || x.Parent() == nil || x.Parent().Signature.Recv() == nil || x.Parent().Params[0] != x {
+			return false
+		}
+		args, ok := argsOfParam(r, x)
+		if !ok {
+			return false
+		}
+		for _, arg := range args {
+			if !isStackAddr(r, arg, typ, field, depth+1) {
+				return false
+			}
+		}
+		return true
+	}
+	return false
+}
+
+// isStackValue: v is the stack itself: a load of its address, or the value receiver of a method of the stack's type
+// that every call site applies to the stack.
+func isStackValue(r *core.Run, v ssa.Value, typ, field string, depth int) bool {
+	if depth > 3 {
+		return false
+	}
+	switch x := v.(type) {
+	case *ssa.UnOp:
+		return x.Op == token.MUL && isStackAddr(r, x.X, typ, field, depth)
+	case *ssa.Parameter:
+		if r == nil || x.Parent() == nil || x.Parent().Signature.Recv() == nil || x.Parent().Params[0] != x {
+			return false
+		}
+		args, ok := argsOfParam(r, x)
+		if !ok {
+			return false
+		}
+		for _, arg := range args {
+			if !isStackValue(r, arg, typ, field, depth+1) {
+				return false
+			}
+		}
+		return true
+	}
+	return false
+}
+
+func stackOps(r *core.Run, fn *ssa.Function, typ, field string) []stackOp {
 	var out []stackOp
 	for _, st := range allStores(fn) {
-		fa, ok := st.Addr.(*ssa.FieldAddr)
-		if !ok {
-			continue
-		}
-		tp, ok := modTypePath(fa.X.Type())
-		if !ok || tp != typ || fieldName(fa.X.Type(), fa.Field) != field {
+		if !isStackAddr(r, st.Addr, typ, field, 0) {
 			continue
 		}
 		op := stackOp{in: st, kind: "other"}
@@ -73,7 +123,7 @@ func stackOps(fn *ssa.Function, typ, field string) []stackOp {
 				h := linOf(v.High)
 				if len(h.T) == 1 && h.C == -1 {
 					for a, c := range h.T {
-						if c == 1 && strings.HasPrefix(a, "len(") && strings.HasSuffix(a, "."+field+")") {
+						if c == 1 && strings.HasPrefix(a, "len(") && (strings.HasSuffix(a, "."+field+")") || isStackValue(r, v.X, typ, field, 0)) {
 							op.kind = "pop"
 						}
 					}
@@ -262,7 +312,7 @@ func cssModelOf(r *core.Run) *cssModel {
 		return m
 	}
 	for _, fn := range m.fns {
-		m.ops[fn] = stackOps(fn, "css.Parser", m.stack)
+		m.ops[fn] = stackOps(r, fn, "css.Parser", m.stack)
 		for _, op := range m.ops[fn] {
 			if op.kind != "push" {
 				continue
@@ -844,7 +894,7 @@ func stackJSON(r *core.Run) {
 		if core.RelPkg(fnPkg(fn)) != "json" || fn == ctor {
 			continue
 		}
-		for _, op := range stackOps(fn, "json.Parser", field) {
+		for _, op := range stackOps(r, fn, "json.Parser", field) {
 			switch op.kind {
 			case "push":
 				npush++
@@ -940,7 +990,7 @@ func stackJSTemplate(r *core.Run) {
 		if core.RelPkg(fnPkg(fn)) != "js" {
 			continue
 		}
-		if ops := stackOps(fn, "js.Lexer", field); len(ops) > 0 {
+		if ops := stackOps(r, fn, "js.Lexer", field); len(ops) > 0 {
 			all = append(all, fnOps{fn, ops})
 			opsOf[fn] = ops
 		}
